@@ -25,6 +25,8 @@ class Taint:
         self.t = defaultdict(dict)                 # fn path -> {local: label}
         self.env = defaultdict(dict)               # closure / coroutine path -> {upvar index: label}
         self.tuple_only = defaultdict(set)         # locals tainted only per tuple field
+        self._val = {}                             # fn path -> [(switch block, ok target, validated root local)]
+        self._vblk = {}
         self.ret = {}                              # fn path -> label (return place tainted)
         for path, locs in (param_sources or {}).items():
             for l, label in locs.items():
@@ -54,9 +56,11 @@ class Taint:
             return None
         return self.t[fpath].get(pl['l'])
 
-    def op_label(self, fpath, op):
+    def op_label(self, fpath, op, vset=None):
         pl = op_place(op)
         if pl is None:
+            return None
+        if vset and pl['l'] in vset:
             return None
         return self.place_label(fpath, pl)
 
@@ -65,6 +69,33 @@ class Taint:
 
     def is_decl(self, callee):
         return any(r.search(callee) for r in self.decl)
+
+    # ------------------------------------------------------------------ validation by a dominating sanitiser
+    def validations(self, f):
+        """[(a, tgt, root)] : on the edge a->tgt the `?` of a sanitiser call on a value rooted
+        at local `root` succeeded; blocks edge-dominated by it may treat `root` as validated
+        (the value is immutable behind a shared reference / moved loop variable)."""
+        if f.path in self._val:
+            return self._val[f.path]
+        out = []
+        for s in f.sites():
+            if not self.is_san(s.callee):
+                continue
+            e = _ok_edge(f, s)
+            if e is None or e[1] is None:
+                continue
+            for a in s.args:
+                r = f.root_local(a, through_calls=(r'std::path::Path::new$', r'::as_ref$', r'::deref$', r'::as_str$', r'::as_path$'))
+                if r is not None and r > 0:
+                    out.append((e[0], e[1], r))
+        self._val[f.path] = out
+        return out
+
+    def validated_at(self, f, bi):
+        key = (f.path, bi)
+        if key not in self._vblk:
+            self._vblk[key] = {r for (a, t, r) in self.validations(f) if f.edge_dom(a, t, bi)}
+        return self._vblk[key]
 
     # ------------------------------------------------------------------ fixpoint
     def run(self, max_rounds=60):
@@ -100,14 +131,15 @@ class Taint:
         fp = f.path
         for bi in f.reachable():
             bl = f.blocks[bi]
+            vset = self.validated_at(f, bi) if self.san else None
             for st in bl['s']:
                 rv = st.get('rv')
                 if not rv:
                     continue
                 lab = None
                 for o in rv.get('a', []):
-                    lab = lab or self.op_label(fp, o)
-                if 'pl' in rv:
+                    lab = lab or self.op_label(fp, o, vset)
+                if 'pl' in rv and not (vset and rv['pl']['l'] in vset):
                     lab = lab or self.place_label(fp, rv['pl'])
                 if rv['k'] == 'agg' and rv.get('ak') in ('closure', 'coroutine', 'coroutine_closure'):
                     # capture: operand i becomes upvar field i of the body's environment
@@ -142,7 +174,7 @@ class Taint:
             if t['k'] != 'call' or 'p' not in t.get('f', {}):
                 continue
             s = Site(f, bi, t)
-            labs = [self.op_label(fp, a) for a in s.args]
+            labs = [self.op_label(fp, a, vset) for a in s.args]
             lab = next((x for x in labs if x), None)
             src = self.source_call(s)
             if src:
@@ -183,5 +215,27 @@ class Taint:
                         ch |= self._mark(fp, pl0['l'], lab)
         return ch
 
-    def tainted(self, f, op):
-        return self.op_label(f.path, op)
+    def tainted(self, f, op, bb=None):
+        return self.op_label(f.path, op, self.validated_at(f, bb) if (bb is not None and self.san) else None)
+
+
+def _ok_edge(f, site):
+    """(switch block, Ok target) of the `?` applied to the result of `site` (possibly through map_err)."""
+    cur = site
+    for _ in range(4):
+        l = cur.dest['l']
+        nxt = None
+        for (bi, si, how, payload) in f.uses(l):
+            if how.startswith('arg') and si == 't':
+                s2 = Site(f, bi, payload)
+                if re.search(r'Try>::branch$', s2.callee):
+                    sw = f.switch_on_call(s2)
+                    if sw is None:
+                        return None
+                    return (sw[0], sw[1].get('0'))
+                if re.search(r'::map_err$', s2.callee):
+                    nxt = s2
+        if nxt is None:
+            return None
+        cur = nxt
+    return None
